@@ -395,4 +395,99 @@ func gcEscape() {
 	fmt.Println("escape ok")
 }
 
+// ---- value sources that alias the world's own storage, at capacity boundaries ----
+//
+// Cloning idioms hand the library a pointer obtained from World.Get as the value of a new
+// component: NewEntityWith(Component{id, w.Get(src, id)}), Assign, Set, builders. When the
+// destination table is exactly full the storage grows between allocating the row and copying
+// the value; the value read through the caller's pointer must still be the one written last.
+func gcAlias() {
+	type shape struct {
+		name string
+		mk   func(w *ecs.World, hID, h2ID, p1 ecs.ID, src ecs.Entity) (ecs.Entity, bool)
+	}
+	for _, inc := range []int{1, 2, 3, 4, 7, 16} {
+		for fill := 1; fill <= 3*inc+1; fill++ {
+			for variant := 0; variant < 6; variant++ {
+				w := ecs.NewWorld(ecs.NewConfig().WithCapacityIncrement(inc).WithRelationCapacityIncrement(inc))
+				hID := ecs.ComponentID[gcHolder](&w)
+				h2ID := ecs.ComponentID[gcHolder2](&w)
+				p1 := ecs.ComponentID[gcPlain1](&w)
+				sID := ecs.ComponentID[gcStrings](&w)
+				base := uint64(100000 + inc*1000 + fill*10 + variant)
+				// fill the table {hID,h2ID,p1,sID} with `fill` entities
+				es := make([]ecs.Entity, fill)
+				for i := range es {
+					es[i] = w.NewEntity(hID, h2ID, p1, sID)
+					(*gcHolder)(w.Get(es[i], hID)).P = newPayload(base + uint64(i)*7919)
+					h2 := (*gcHolder2)(w.Get(es[i], h2ID))
+					h2.A, h2.S, h2.P = int64(base)+int64(i), []uint64{base, uint64(i)}, newPayload(base+uint64(i)*7919+1)
+					*(*gcPlain1)(w.Get(es[i], p1)) = gcPlain1{X: int64(base) + int64(i), Y: -int64(base) - int64(i)}
+					*(*gcStrings)(w.Get(es[i], sID)) = gcStrings{N: int64(i), A: fmt.Sprint("a", base, i), B: fmt.Sprint("b", base, i)}
+				}
+				si := (fill - 1) / 2
+				src := es[si]
+				comps := []ecs.Component{
+					{ID: hID, Comp: w.Get(src, hID)}, {ID: h2ID, Comp: w.Get(src, h2ID)},
+					{ID: p1, Comp: w.Get(src, p1)}, {ID: sID, Comp: w.Get(src, sID)},
+				}
+				var clones []ecs.Entity
+				what := ""
+				switch variant {
+				case 0:
+					what = "NewEntityWith"
+					clones = append(clones, w.NewEntityWith(comps...))
+				case 1:
+					what = "Assign (moves into the source's table)"
+					e := w.NewEntity()
+					w.Assign(e, comps...)
+					clones = append(clones, e)
+				case 2:
+					what = "NewBuilderWith.New"
+					clones = append(clones, ecs.NewBuilderWith(&w, comps...).New())
+				case 3:
+					what = "NewBuilderWith.NewBatchQ"
+					q := ecs.NewBuilderWith(&w, comps...).NewBatchQ(inc + 1)
+					for q.Next() {
+						clones = append(clones, q.Entity())
+					}
+				case 4:
+					what = "NewBuilderWith.Add"
+					e := w.NewEntity()
+					ecs.NewBuilderWith(&w, comps...).Add(e)
+					clones = append(clones, e)
+				case 5:
+					what = "Assign of part of the components (p1 present before)"
+					e := w.NewEntity(p1)
+					w.Assign(e, comps[0], comps[1], comps[3])
+					w.Set(e, p1, w.Get(src, p1))
+					clones = append(clones, e)
+				}
+				runtime.GC()
+				for _, c := range clones {
+					ctx := fmt.Sprintf("alias/%s inc=%d fill=%d", what, inc, fill)
+					tok := base + uint64(si)*7919
+					checkPayload((*gcHolder)(w.Get(c, hID)).P, tok, ctx+" holder")
+					h2 := (*gcHolder2)(w.Get(c, h2ID))
+					checkPayload(h2.P, tok+1, ctx+" holder2")
+					if h2.A != int64(base)+int64(si) || len(h2.S) != 2 || h2.S[0] != base || h2.S[1] != uint64(si) {
+						gcFail("%s: holder2 scalar/slice fields lost: %+v", ctx, *h2)
+					}
+					if pl := *(*gcPlain1)(w.Get(c, p1)); pl.X != int64(base)+int64(si) || pl.Y != -int64(base)-int64(si) {
+						gcFail("%s: plain component lost: %+v", ctx, pl)
+					}
+					if st := *(*gcStrings)(w.Get(c, sID)); st.N != int64(si) || st.A != fmt.Sprint("a", base, si) || st.B != fmt.Sprint("b", base, si) {
+						gcFail("%s: string component lost: %+v", ctx, st)
+					}
+				}
+				// the sources themselves must be untouched
+				for i, e := range es {
+					checkPayload((*gcHolder)(w.Get(e, hID)).P, base+uint64(i)*7919, "alias/source row after clone")
+				}
+			}
+		}
+	}
+	fmt.Println("alias ok")
+}
+
 var _ = unsafe.Pointer(nil)
